@@ -111,3 +111,11 @@ Theorem C14_fleet_edge_only_delegates :
   SrcFragments.Fleet_reserve_get_cancel_delegates = true.
 Proof. repeat split. Qed.
 Print Assumptions C14_fleet_edge_only_delegates.
+
+(* tie B, constructor wiring: a fleet's waiting delay and transit delay are those of its store *)
+From FV Require TieWiring.
+Theorem C14_configured_delays_reach_the_store :
+  (SrcFragments.Fleet_store_delay_wiring = SrcFragments.A_delay /\ SrcFragments.FleetStore_keeps_delay = SrcFragments.A_delay /\
+  SrcFragments.Fleet_store_transit_delay_wiring = SrcFragments.A_transit_delay /\ SrcFragments.FleetStore_keeps_transit_delay = SrcFragments.A_transit_delay).
+Proof. exact TieWiring.fleet_delays_reach_the_store. Qed.
+Print Assumptions C14_configured_delays_reach_the_store.
